@@ -2,18 +2,23 @@
 use crate::harness::Ctx;
 use serde_json::Value;
 
-pub mod c15;
-
-pub fn ids() -> Vec<&'static str> {
-    vec!["C15"]
+macro_rules! registry {
+    ($( $id:literal => $m:ident ),* $(,)?) => {
+        $( pub mod $m; )*
+        pub fn ids() -> Vec<&'static str> { vec![ $( $id ),* ] }
+        pub fn run(id: &str, ctx: &mut Ctx) -> bool {
+            match id {
+                $( $id => $m::run(ctx), )*
+                _ => return false,
+            }
+            true
+        }
+    };
 }
 
-pub fn run(id: &str, ctx: &mut Ctx) -> bool {
-    match id {
-        "C15" => c15::run(ctx),
-        _ => return false,
-    }
-    true
+registry! {
+    "C15" => c15,
+    "C24" => c24,
 }
 
 /// Worker-side execution of check-specific requests.
